@@ -236,13 +236,32 @@ fn c14_directed(seed: u64) -> Acc {
             }
         }
     }
+    // (c) moves of exactly the major-swap threshold: from the price of tick 0 (2^64) to the published price of
+    //     `threshold` ticks and back, where `smaller * price(threshold) / 2^64` is exact
+    for (k, threshold) in [1u16, 64, 128, 500].into_iter().enumerate() {
+        let (m1, m2) = (w.add_spl_mint(6), w.add_spl_mint(6));
+        let Ok(p) = w.add_adaptive_pool(c, m1, m2, 3000 + k as u16, 64, 3000, (30, 600, 5000, 4000, 350_000, 64, threshold), 1u128 << 64, None) else {
+            acc.count("harness_errors");
+            continue;
+        };
+        for (limit, a_to_b) in [(sqrt_price_from_tick_index(threshold as i32), false), (1u128 << 64, true), (sqrt_price_from_tick_index(-(threshold as i32)), true), (1u128 << 64, false)] {
+            w.advance_clock(40);
+            let ix = w.swap_ix(p, u, 1_000_000, 0, limit, true, a_to_b, k % 2 == 0);
+            let o = w.exec(ix);
+            acc.evaluations += 1;
+            if o.ok() {
+                acc.count("directed_moves_of_exactly_the_threshold");
+            }
+            crate::hist::Monitor::after(&mut mon, &mut w, &o, &mut acc);
+        }
+    }
     acc
 }
 
 pub fn c14(tier: Tier, seed: u64) -> i32 {
     use crate::monitors::c14::C14;
     let mut rep = Report::new("C14", tier, seed);
-    rep.rule = "history workload on adaptive-fee pools (constants drawn from the validity rules incl. control factor 0 and extremes, tick group sizes dividing the spacing, trade-enable timestamps in the past/future, clock gaps in every class: < filter, < decay, >= decay, > 1h) plus directed scenarios on empty pools (b-to-a swaps stopping strictly inside the first tick of a tick group through a skip step; single swaps travelling 429_497+ tick groups with group sizes 1 and 2, where groups x 10_000 leaves 32 bits): for every successful swap leg an independent re-statement of the documented schedule is applied to the per-step hook records: the reference (vol, group, timestamp) expected from the pre-swap oracle variables and the clock by the filter/decay/reset rules must equal the stored one; every step with a non-zero amount lies in one tick group (or in a span over which the schedule is constant) and carries static + ceil(cf*(acc*size)^2/1e13) capped at 100000 with acc = min(vref + |g-gref|*10000, max); rates within [static, 100000]; accumulator <= max; stored accumulator = that of the end group or a neighbour; major-swap timestamp set iff the price moved by the threshold (2e-9 band on log price); control factor 0 => static rate and no extra step splitting; no trading before trade_enable_timestamp. distinct = (instruction, direction, elapsed-time class, control factor zero?, saturated?, #steps)".into();
+    rep.rule = "history workload on adaptive-fee pools (constants drawn from the validity rules incl. control factor 0 and extremes, tick group sizes dividing the spacing, trade-enable timestamps in the past/future, clock gaps in every class: < filter, < decay, >= decay, > 1h) plus directed scenarios on empty pools (b-to-a swaps stopping strictly inside the first tick of a tick group through a skip step; single swaps travelling 429_497+ tick groups with group sizes 1 and 2, where groups x 10_000 leaves 32 bits; moves of exactly the major-swap threshold from and to the price of tick 0): for every successful swap leg an independent re-statement of the documented schedule is applied to the per-step hook records: the reference (vol, group, timestamp) expected from the pre-swap oracle variables and the clock by the filter/decay/reset rules must equal the stored one; every step with a non-zero amount lies in one tick group (or in a span over which the schedule is constant) and carries static + ceil(cf*(acc*size)^2/1e13) capped at 100000 with acc = min(vref + |g-gref|*10000, max); rates within [static, 100000]; accumulator <= max; stored accumulator = that of the end group or a neighbour; major-swap timestamp set iff the price moved by the threshold (2e-9 band on log price); control factor 0 => static rate and no extra step splitting; no trading before trade_enable_timestamp. distinct = (instruction, direction, elapsed-time class, control factor zero?, saturated?, #steps)".into();
     rep.assumptions = vec![SVM_ASSUMPTION.into(), "oracle variables are reached through sequences of swaps and clock gaps (no direct seeding)".into()];
     let per_shard = tier.pick(72, 1800);
     let acc = run_histories(
